@@ -186,12 +186,19 @@ fn object_field(input: &[u8]) -> IResult<&[u8], Cow<'_, str>> {
 fn index(input: &[u8]) -> IResult<&[u8], Index> {
     alt((
         map(i32, Index::Index),
-        map(
+        map_res(
             preceded(
                 tuple((tag_no_case("last"), multispace0, char('-'), multispace0)),
-                i32,
+                i64,
             ),
-            |v| Index::LastIndex(v.saturating_neg()),
+            |v| {
+                // `last-2147483648` is the printed form of `LastIndex(i32::MIN)`.
+                if v == -(i32::MIN as i64) {
+                    Ok(Index::LastIndex(i32::MIN))
+                } else {
+                    i32::try_from(v).map(|v| Index::LastIndex(v.saturating_neg()))
+                }
+            },
         ),
         map(
             preceded(
